@@ -316,10 +316,15 @@ def correspond(ctx, res, name, ops, impl_out, model_out, nontrivial=None, sample
 # ---- verdict -------------------------------------------------------------------------------
 
 def load_known():
+    out = []
     p = os.path.join(VERIF, "known_findings.json")
-    if not os.path.exists(p):
-        return []
-    return json.load(open(p)).get("entries", [])
+    if os.path.exists(p):
+        out += json.load(open(p)).get("entries", [])
+    # per-property files (same entry format), so that authors never edit a shared file concurrently
+    import glob
+    for q in sorted(glob.glob(os.path.join(VERIF, "known_findings.d", "*.json"))):
+        out += json.load(open(q)).get("entries", [])
+    return out
 
 
 def write_replay(ctx, payload):
